@@ -595,7 +595,8 @@ inline void ThreadPool::forceEnqueue(F&& f, moodycamel::ProducerToken* token) {
 template <typename F>
 DISPENSO_REQUIRES(OnceCallableFunc<F>)
 inline void ThreadPool::schedule(F&& f) {
-  if (shouldRunInline()) {
+  if (shouldRunInline() && detail::PerPoolPerThreadInfo::canInlineSchedule()) {
+    detail::InlineDepthGuard depthGuard;
     DISPENSO_VERIF_HOOK("pool.inline", this, 0, 0);
     f();
   } else {
@@ -613,7 +614,8 @@ inline void ThreadPool::schedule(F&& f, ForceQueuingTag) {
 
 template <typename F>
 inline void ThreadPool::schedule(moodycamel::ProducerToken& token, F&& f) {
-  if (shouldRunInline()) {
+  if (shouldRunInline() && detail::PerPoolPerThreadInfo::canInlineSchedule()) {
+    detail::InlineDepthGuard depthGuard;
     DISPENSO_VERIF_HOOK("pool.inline", this, 0, 0);
     f();
   } else {
@@ -629,7 +631,8 @@ inline void ThreadPool::schedule(moodycamel::ProducerToken& token, F&& f, ForceQ
 template <typename F>
 DISPENSO_REQUIRES(OnceCallableFunc<F>)
 inline void ThreadPool::schedulePlaced(F&& f) {
-  if (shouldRunInline()) {
+  if (shouldRunInline() && detail::PerPoolPerThreadInfo::canInlineSchedule()) {
+    detail::InlineDepthGuard depthGuard;
     DISPENSO_VERIF_HOOK("pool.inline", this, 0, 0);
     f();
   } else {
@@ -647,7 +650,8 @@ inline void ThreadPool::schedulePlaced(F&& f, ForceQueuingTag) {
 
 template <typename F>
 inline void ThreadPool::schedulePlaced(moodycamel::ProducerToken& token, F&& f) {
-  if (shouldRunInline()) {
+  if (shouldRunInline() && detail::PerPoolPerThreadInfo::canInlineSchedule()) {
+    detail::InlineDepthGuard depthGuard;
     DISPENSO_VERIF_HOOK("pool.inline", this, 0, 0);
     f();
   } else {
@@ -1069,7 +1073,8 @@ void ThreadPool::scheduleBulkImpl(size_t count, Generator&& gen) {
   while (i < count) {
     ssize_t curWork = workRemaining_.load(std::memory_order_relaxed);
     ssize_t loadFactor = poolLoadFactor_.load(std::memory_order_relaxed);
-    if (curWork > loadFactor) {
+    if (curWork > loadFactor && detail::PerPoolPerThreadInfo::canInlineSchedule()) {
+      detail::InlineDepthGuard depthGuard;
       DISPENSO_VERIF_HOOK("pool.inline", this, 0, 0);
       gen(i)();
       ++i;
